@@ -237,6 +237,9 @@ struct shared_mutex: mutex {
         }
         --readers;
         emit("sul " + name_of(this));
+        if (g_post_unlock_sched != 0) {
+            sched();
+        }
     }
     bool try_lock_shared_timed()
     {
